@@ -638,6 +638,7 @@ def var(name: str, positive=False, nonneg=False) -> RF:
 
 def ufn(name: str, *args, positive=False, nonneg=False) -> RF:
     """uninterpreted function application (args: RF or hashable constants)"""
+    args = tuple(simplify(a) if isinstance(a, RF) else a for a in args)
     ka = tuple(a.key() if isinstance(a, RF) else ("c", a) for a in args)
     i = ATOMS.get("fn", (name, ka), positive=positive, nonneg=nonneg)
     _FN_ARGS[i] = args
@@ -841,7 +842,7 @@ def rlog(x) -> RF:
 
 
 def rexp(x) -> RF:
-    x = as_rf(x)
+    x = simplify(as_rf(x))     # canonical w.r.t. root atoms: exp atoms are identified by their argument
     if x.n.is_zero():
         return ONE
     den = None if x.d.is_one() else x.d
